@@ -497,6 +497,9 @@ def check_property(pid, tier='quick', seed=0):
             for x in extras.get('undecided', []):
                 undecided.append(x)
 
+    if not samples:
+        # a safety-only property (C01): the obligations are Verus's own no-panic / termination VCs of each function
+        samples = [{'obligation': 'no overflow / underflow / division by zero / out-of-range index / failed unwrap / reachable unreachable!, and termination of every loop with a decreases clause', 'function': f} for f in fn_list[:12]]
     wall = time.time() - t0
     rc = 0
     out_lines = []
